@@ -121,7 +121,33 @@ def data(desc, rng):
         raise ValueError(kind)
     if cplx and not np.iscomplexobj(x):
         x = x.astype(complex)
-    return x
+    return variant(x, desc.get('variant'))
+
+
+NARROW = ('int8', 'int16', 'int32', 'uint8', 'uint16')
+
+
+def variant(x, v):
+    """Storage variants of the same kind of record: 'zimag' = complex dtype whose imaginary part is exactly
+    zero; a narrow integer dtype name = samples quantised to about 60 % of that type's full scale (wav / ADC data)."""
+    if not v:
+        return x
+    if v == 'zimag':
+        return np.asarray(x).real.astype(complex)
+    if v in NARROW:
+        if np.iscomplexobj(x):
+            return x
+        info = np.iinfo(v)
+        xf = np.asarray(x, dtype=float)
+        m = float(np.max(np.abs(xf))) or 1.0
+        q = np.round(xf / m * 0.6 * info.max)
+        if info.min == 0:
+            q = np.abs(q)
+        q = q.astype(v)
+        if not np.any(q):
+            q[0] = 1
+        return q
+    raise ValueError(v)
 
 
 def pick(rng, seq):
